@@ -328,7 +328,7 @@ Definition zhcase := (list (hinit Z N) * list zhstep * list zhout)%type.
 
 Definition c03h_run (early : bool) (c : zhcase) : list zhout :=
   let '(fs, prog, _) := c in
-  snd (hrun Z Z.eqb 0%Z N N.eqb early (hstart Z N fs (mkHS [] [])) prog).
+  snd (hrun Z zveq 0%Z N N.eqb early (hstart Z N fs (mkHS [] [])) prog).
 
 Definition c03h_show (c : zhcase) : list zhout := c03h_run false c.
 
@@ -484,7 +484,7 @@ Definition zacase := (list (hinit Z N) * list (argobj N) * list zastep * list za
 
 Definition c03a_run (copy : bool) (c : zacase) : list zaout :=
   let '(fs, pool, prog, _) := c in
-  snd (arun Z Z.eqb 0%Z N N.eqb false copy (mkAS (hstart Z N fs (mkHS [] [])) pool) prog).
+  snd (arun Z zveq 0%Z N N.eqb false copy (mkAS (hstart Z N fs (mkHS [] [])) pool) prog).
 
 Definition c03a_show (c : zacase) : list zaout := c03a_run true c.
 
